@@ -202,6 +202,11 @@ def engine_variable_sequence(rec, g, rnd):
     except SyntaxError:
         return
     text = 'v = %s\n\n[R]\nmatch: v\ncategory: C\n' % e2
+    if rnd.random() < .5:
+        # an EARLIER rule binds the same name with let: (its own, local meaning) and does not match: the later rule still reads the top-level variable
+        text = 'v = %s\n\n[Shadow]\nlet: v = %s\nmatch: contains("zzzz-never") and v\ncategory: S\n\n[R]\nmatch: v\ncategory: C\n' % \
+            (e2, rnd.choice(['not (%s)' % e2, 'false', 'true', '"text"', 'amount * 0']))
+        rec.count('engine_variable_sequences_with_a_shadowing_let_in_an_earlier_rule')
     try:
         eng = parse_merchants(text)
     except MerchantParseError:
